@@ -31,7 +31,8 @@ type verifNatsSub struct {
 	subject   string
 	queue     string
 	cb        nats.MsgHandler
-	pending   chan *nats.Msg
+	pending   []*nats.Msg
+	stop      bool
 	enq       int
 	delivered int
 	closed    bool
@@ -78,7 +79,7 @@ func (b *verifNatsBroker) deliver(p verifPub) {
 			groups[s.queue+"|"+s.subject] = true
 		}
 		s.enq++
-		s.pending <- &nats.Msg{Subject: p.subject, Reply: p.reply, Data: p.data, Sub: s.handle}
+		s.pending = append(s.pending, &nats.Msg{Subject: p.subject, Reply: p.reply, Data: p.data, Sub: s.handle})
 	}
 }
 
@@ -88,12 +89,16 @@ func (b *verifNatsBroker) inject(subject, reply string, data []byte) {
 }
 
 func (s *verifNatsSub) dispatch() {
-	for msg := range s.pending {
-		if s.closed {
-			s.delivered++
-			continue
+	for {
+		verifBlockUntil(func() bool { return len(s.pending) > 0 || s.stop })
+		if len(s.pending) == 0 {
+			return
 		}
-		s.cb(msg)
+		msg := s.pending[0]
+		s.pending = s.pending[1:]
+		if !s.closed {
+			s.cb(msg)
+		}
 		s.delivered++
 	}
 }
@@ -124,7 +129,7 @@ func verifNatsSubscribe(c *nats.Conn, subj string, cb nats.MsgHandler) (*nats.Su
 
 func verifNatsQueueSubscribe(c *nats.Conn, subj, queue string, cb nats.MsgHandler) (*nats.Subscription, error) {
 	s := &verifNatsSub{handle: &nats.Subscription{Subject: subj, Queue: queue}, subject: subj, queue: queue, cb: cb,
-		pending: make(chan *nats.Msg, 16)}
+	}
 	verifBroker.subs = append(verifBroker.subs, s)
 	go s.dispatch()
 	return s.handle, nil
@@ -145,7 +150,7 @@ func verifNatsUnsubscribe(h *nats.Subscription) error {
 		return nats.ErrBadSubscription
 	}
 	s.closed = true
-	close(s.pending)
+	s.stop = true
 	return nil
 }
 
@@ -154,8 +159,8 @@ func verifNatsDrain(h *nats.Subscription) error {
 	if s == nil || s.closed {
 		return nats.ErrBadSubscription
 	}
-	s.draining = true
-	close(s.pending) // intake stops; what is pending is still delivered by the dispatcher
+	s.draining = true // intake stops; what is pending is still delivered by the dispatcher
+	s.stop = true
 	return nil
 }
 
